@@ -1,9 +1,9 @@
 SPECIFICATION Spec
 CONSTANTS
-  N = 4
-  Mode = "complete"
+  N = 3
+  Mode = "average"
   Overlap = FALSE
-  Vals = {1, 2, 3}
+  Vals = {0, 1, 2}
 INVARIANTS
   SizesAddUp
   TreeShape
